@@ -27,6 +27,9 @@ def gen_table(rng, ncols=None, nrows=None, shape=None, exotic_names=True):
                 elif not integer and rng.random() < 0.08:
                     # a valid number close to - but not equal to - the missing marker
                     data[j] = float(missing) + rng.choice([0.05, -0.05, 1e-9, -1e-9, 0.0009765625])
+        if integer and rng.random() < 0.12:
+            # whole numbers that fit 32 bits one by one while their products and weighted sums do not
+            data = [v if (missing is not None and v == missing) else rng.choice([250000, 40000, 100000, 46341, 65536, 3, -70000, 2147483647]) for v in data]
         if not integer and rng.random() < 0.1:
             # values whose common offset is huge compared with their spread (Julian days, epoch seconds, UTM northings)
             base = rng.choice([2460000.0, 4000000.0, 1e8])
